@@ -322,33 +322,43 @@ pub fn run_c05(ctx: &Ctx, st: &mut Local) {
 // C03
 
 pub fn c03_check(ctx: &Ctx, st: &mut Local, eng: &str, idx: u64, bytes: &[u8], plain: Option<&[u8]>) {
+    c03_one(ctx, st, eng, idx, bytes, plain, "");
+    // the same stream followed by another complete stream: zlib stops at the end of the first one, so
+    // plaintext and consumed length are judged against zlib on the concatenation as well (the subject
+    // may accept the concatenation even where it rejects the bare stream)
+    let mut two = bytes.to_vec();
+    two.extend_from_slice(&[0x4b, 0x04, 0x00, 0xaa]);
+    c03_one(ctx, st, eng, idx, &two, None, "+stream");
+}
+
+fn c03_one(ctx: &Ctx, st: &mut Local, eng: &str, idx: u64, bytes: &[u8], plain: Option<&[u8]>, tag: &str) {
     let s = ctx.cur;
     let r = match caught(|| s.decompress(bytes, false)) {
         Err(p) => {
-            st.outcome(eng, &format!("analysis-panic@{}", p.loc));
+            st.outcome(eng, &format!("analysis-panic@{}{}", p.loc, tag));
             return;
         }
         Ok(Err(_)) => {
-            st.outcome(eng, "rejected-by-subject");
+            st.outcome(eng, &format!("rejected-by-subject{}", tag));
             return;
         }
         Ok(Ok(r)) => r,
     };
     let z = match comp::zlib_inflate_raw(bytes, r.plain.len().max(1 << 20) * 2) {
         Err(_) => {
-            st.outcome(eng, "accepted-by-subject-rejected-by-zlib");
+            st.outcome(eng, &format!("accepted-by-subject-rejected-by-zlib{}", tag));
             return;
         }
         Ok(z) => z,
     };
     if r.plain != z.out {
         let at = r.plain.iter().zip(z.out.iter()).position(|(a, b)| a != b).unwrap_or(r.plain.len().min(z.out.len()));
-        st.violation(ctx.viol(eng, idx, "plaintext-differs-from-zlib", None,
+        st.violation(ctx.viol(eng, idx, &format!("plaintext-differs-from-zlib{}", tag), None,
             format!("plain_text ({} bytes) differs from zlib's output ({} bytes) at offset {}", r.plain.len(), z.out.len(), at), bytes));
         return;
     }
     if r.size != z.consumed {
-        st.violation(ctx.viol(eng, idx, "consumed-differs-from-zlib", None,
+        st.violation(ctx.viol(eng, idx, &format!("consumed-differs-from-zlib{}", tag), None,
             format!("compressed_size {} but zlib consumed {}", r.size, z.consumed), bytes));
         return;
     }
@@ -359,7 +369,7 @@ pub fn c03_check(ctx: &Ctx, st: &mut Local, eng: &str, idx: u64, bytes: &[u8], p
             return;
         }
     }
-    st.outcome(eng, "agrees-with-zlib");
+    st.outcome(eng, &format!("agrees-with-zlib{}", tag));
 }
 
 pub fn run_c03(ctx: &Ctx, st: &mut Local) {
